@@ -293,6 +293,10 @@ storage_properties_copy(struct StorageProperties* dst,
     // 1. Copy everything except the strings
     {
         struct String tmp_uri, tmp_meta, tmp_access_key, tmp_secret_key;
+        struct storage_properties_dimensions_s tmp_dims;
+        memcpy(&tmp_dims,
+               &dst->acquisition_dimensions,
+               sizeof(tmp_dims));                           // NOLINT
         memcpy(&tmp_uri, &dst->uri, sizeof(struct String)); // NOLINT
         memcpy(&tmp_meta,                                   // NOLINT
                &dst->external_metadata_json,
@@ -315,6 +319,11 @@ storage_properties_copy(struct StorageProperties* dst,
         memcpy(&dst->secret_access_key,
                &tmp_secret_key,
                sizeof(struct String)); // NOLINT
+        // dst keeps its own dimension array for now: the shallow copy above
+        // must not make it point into src
+        memcpy(&dst->acquisition_dimensions,
+               &tmp_dims,
+               sizeof(tmp_dims)); // NOLINT
     }
 
     // 2. Reallocate and copy the Strings
@@ -324,10 +333,11 @@ storage_properties_copy(struct StorageProperties* dst,
     CHECK(copy_string(&dst->access_key_id, &src->access_key_id));
     CHECK(copy_string(&dst->secret_access_key, &src->secret_access_key));
 
-    // 3. Copy the dimensions
-    if (src->acquisition_dimensions.data) {
+    // 3. Copy the dimensions: release dst's previous ones, then deep copy src's
+    if (dst->acquisition_dimensions.data) {
         storage_properties_dimensions_destroy(dst);
-
+    }
+    if (src->acquisition_dimensions.data) {
         CHECK(storage_properties_dimensions_init(
           dst, src->acquisition_dimensions.size));
         for (size_t i = 0; i < src->acquisition_dimensions.size; ++i) {
